@@ -288,8 +288,9 @@ class ModeDReader(MeterReaderBase[DataReadout]):
         if len(self._buffer) > 8191 or len(self._raw_data) > 8191:
             # Line or readout is too long to be valid. Discard it and hunt for next start character.
             if len(self._buffer) > 8191:
-                # The too long line may itself begin with the start character.
-                self._buffer.skip(1)
+                # The too long line can begin with, and contain, start characters.
+                # Only the last one can still become the start of a readout.
+                self._buffer.skip_to_last_flag_or_end()
             self._is_int_hunt_mode = True
             self._raw_data.clear()
             self._buffer.trim_buffer_to_flag_or_end()
@@ -347,9 +348,10 @@ class _ReaderBuffer:
         """Add bytes to buffer."""
         self._buffer.extend(data_chunk)
 
-    def skip(self, count: int) -> None:
-        """Skip bytes in buffer."""
-        self._buffer_pos = min(self._buffer_pos + count, len(self._buffer))
+    def skip_to_last_flag_or_end(self) -> None:
+        """Skip to the last start character after current position, or to end of buffer if there is none."""
+        flag_pos = self._buffer.rfind(START_CHARACTER_HEX, self._buffer_pos + 1)
+        self._buffer_pos = flag_pos if flag_pos > 0 else len(self._buffer)
 
     def trim_buffer_to_current_position(self) -> None:
         """Trim buffer to current position."""
